@@ -252,6 +252,7 @@ def run(ctx):
     for x in res[5:9] + res[-3:]:
         ctx.sample({"packages": x[0], "imports": {str(k): v for k, v in x[1].items()}, "expected": x[2], "exit": x[3]})
     special(ctx, home)
+    directory_names(ctx, home, quick)
     git_imports(ctx)
 
 
@@ -306,6 +307,70 @@ def shared_namespaces(ctx, home, graphs, quick):
                 shutil.rmtree(base, ignore_errors=True)
 
     pmap(one, jobs)
+
+
+HOSTILE_DIR_NAMES = [".common", ".p", "..p", "a b", "p.yml", "p.yaml", "model.yml", "UPPER", "\u00fcn\u00ef", "-dash", "p:1", "p'q", "nested/deeper/p", ".hidden/inner/p",
+                     "vendor/.cache/p", "_package", "out", "p,q", "{p}", "[p]", "p&q", "~p", "p$HOME", "p+q", "p@1", "p=q", "p!", "p;q"]
+# not in the list: names with '#', '?' or '%xx' - an import entry is a URL (packaging/cache.go parses it with url.Parse), so those characters
+# carry URL meaning there and a directory so named has to be percent-escaped by the author; demanding otherwise was a false alarm of this check.
+
+
+def directory_names(ctx, home, quick):
+    """The directory a package lives in is not part of the model: the same import graph laid out in directories with hostile names (hidden, nested below
+    hidden directories, spaces, yaml-looking, non-ASCII, names of things the tool itself creates) loads the same namespaces and gives the same model dump
+    as the plain layout p0, p1, ..."""
+    shapes = [("chain", 3, {0: [1], 1: [2]}), ("diamond", 4, {0: [1, 2], 1: [3], 2: [3]}), ("fan", 3, {0: [1, 2]}), ("single", 1, {})]
+    jobs = []
+    for sname, n, adj in shapes:
+        for hn in HOSTILE_DIR_NAMES:
+            for pos in (["all"] + list(range(n))):
+                if quick and pos not in ("all", 0, n - 1):
+                    continue
+                if pos in ("all", 0) and "/" in hn:
+                    continue            # the root keeps one path component (the output directories sit next to it)
+                jobs.append((sname, n, adj, hn, pos))
+
+    plain = {}
+    for sname, n, adj in shapes:
+        base = os.path.join(ctx.workdir, "cases", "dn_%s_plain" % sname)
+        shutil.rmtree(base, ignore_errors=True)
+        p, parsed, dump = observe(write_graph(base, n, adj), home)
+        if p.rc != 0:
+            raise Inconclusive("plain layout of %s rejected: %s" % (sname, cli.clean(p.stderr)[:300]))
+        plain[sname] = (sorted(parsed), dump)
+        shutil.rmtree(base, ignore_errors=True)
+
+    def one(job):
+        k, (sname, n, adj, hn, pos) = job
+
+        def dir_of(i):
+            if pos == "all":
+                return hn if i == 0 else (hn + str(i) if "/" not in hn else hn + str(i))
+            return hn if i == pos else "p%d" % i
+        base = os.path.join(ctx.workdir, "cases", "dn_%d" % k)
+        shutil.rmtree(base, ignore_errors=True)
+        pkgdir = write_graph(base, n, adj, dir_of=dir_of, import_path=lambda i, j: os.path.relpath(dir_of(j), dir_of(i)))
+        p, parsed, dump = observe(pkgdir, home)
+        ctx.ev()
+        ctx.count("directory-names")
+        ctx.case(("dirname", sname, hn, pos))
+        case = {"case_dir": base, "graph": adj, "directory_name": hn, "position": pos, "stderr": cli.clean(p.stderr)[-1200:]}
+        site = cli.panic_site(p.stderr)
+        desc = "%s graph with package %s in a directory called %r" % (sname, pos, hn)
+        if p.timed_out:
+            raise Inconclusive("watchdog")
+        if site:
+            ctx.violation("panic@%s" % site, "%s: crash" % desc, case)
+        elif p.rc != 0:
+            ctx.violation("directory-name:rejected", "%s: rejected although the same graph in plain directories loads: %s" % (desc, cli.clean(p.stderr)[:300]), case)
+        elif sorted(parsed) != plain[sname][0]:
+            ctx.violation("directory-name:load-count", "%s: namespaces parsed %s, in plain directories %s" % (desc, sorted(parsed), plain[sname][0]), case)
+        elif dump != plain[sname][1]:
+            ctx.violation("directory-name:model-differs", "%s: the model dump differs from the one of the plain layout (definitions lost?)" % desc, case)
+        else:
+            shutil.rmtree(base, ignore_errors=True)
+
+    pmap(one, list(enumerate(jobs)))
 
 
 def git_imports(ctx):
